@@ -188,6 +188,17 @@ def rename_overlay_locals(ent, mp):
     e.closures = {n: ([f(y) for y in v] if isinstance(v, list) else f(v)) for n, v in ent.closures.items()}
     return e
 
+def tolerant_anchor(rx):
+    """operator- and constant-tolerant form of an anchor regex (used only when the exact form no longer matches)."""
+    t = rx
+    t = re.sub(r"(\\\+|-|\\\*|/|\\\||&|\\\^)=", "[-+*/|&^]=", t)          # compound assignments  += -= *= ...
+    t = re.sub(r" (\\\+|-|\\\*) ", " [-+*] ", t)                                 # binary + - *
+    t = re.sub(r" (>=|<=|>|<|==|!=) ", " (?:>=|<=|>|<|==|!=) ", t)                  # comparisons
+    t = re.sub(r"(?<![\\\w{])\d+(?![\w}])", r"\\d+", t)                          # integer literals
+    t = t.replace("\\.\\.", "\\.\\.=?")                                          # .. / ..=
+    return t
+
+
 def weave_fn(it, ctx, meta, modpath, in_trait_decl=False):
     """weaves the overlay into one function; when an anchor of the overlay is lost (the function's shape changed), the
     function is emitted as #[verifier::external_body] with its contract only and reported in meta["lost_fns"]:
@@ -401,6 +412,15 @@ def _weave_fn(it, ctx, meta, modpath, in_trait_decl=False, degrade=False):
             btxt = rules.replace_closure_header(btxt, n, "\n".join(l.strip() for l in lines), key)
         for (where, k, rx, lines) in ent.inserts:
             ms = list(re.finditer(rx, btxt))
+            if len(ms) < k:
+                # the anchored statement was edited: retry with the operator- and constant-tolerant form of the anchor, so
+                # that a changed operator / constant keeps its proof hints and shows up as a failed obligation of the
+                # function instead of a lost proof
+                trx = tolerant_anchor(rx)
+                ms = list(re.finditer(trx, btxt)) if trx != rx else ms
+                if len(ms) >= k:
+                    ctx.log.append({"rule": "anchor", "file": ctx.cur_file, "line": it.line, "fn": key,
+                                    "what": "anchor /%s/ matched in its tolerant form /%s/" % (rx, trx)})
             if len(ms) < k:
                 raise GenError("lost anchor: /%s/ #%d not found in %s" % (rx, k, key))
             mm = ms[k - 1]
